@@ -58,7 +58,6 @@ class McFile:
             raise ValueError("I/O operation on closed file")
         if n is None or n < 0:
             n = max(len(self.data) - pos, 0)
-        out = self.data[pos : pos + n]
         ev("read", self.path, self.hid, pos, n)
         # re-read position after the yield point: another thread sharing this
         # handle may have moved it (that is exactly what C19 must expose)
@@ -66,6 +65,25 @@ class McFile:
         out = self.data[pos : pos + n]
         self.pos = pos + len(out)
         return out
+
+    def readinto(self, b):
+        """file-object API used by 'read into a reusable buffer' code paths; may be short, like read()"""
+        mv = memoryview(b).cast("B")
+        data = self.read(len(mv))
+        mv[: len(data)] = data
+        return len(data)
+
+    def readall(self):
+        return self.read(-1)
+
+    def read1(self, n=-1):
+        return self.read(n)
+
+    @property
+    def name(self):
+        return self.path
+
+    mode = "rb"
 
     def close(self):
         if not self.closed:
